@@ -110,7 +110,13 @@ func worldSelfParams(seed int) world.Params {
 	return p
 }
 
-const worldSelfSeeds = 30
+// worldSelfSeeds is the number of seeds TestWorldSelf runs; WORLD_SELF_SEEDS overrides it for soak runs.
+var worldSelfSeeds = func() int {
+	if n, err := strconv.Atoi(os.Getenv("WORLD_SELF_SEEDS")); err == nil && n > 0 {
+		return n
+	}
+	return 30
+}()
 
 // worldSelfCoverage counts how often the corner cases the test claims to cover really occurred.
 var worldSelfCoverage = map[string]int{}
